@@ -52,6 +52,8 @@ def _grid(shape, rng, cap, horizon, opts):
             names.append(("jf", i))
     axes.append(opts.get("pure", [False]))
     names.append(("pure", 0))
+    axes.append(opts.get("ucancel", [-1]))
+    names.append(("ucancel", 0))
     total = 1
     for ax in axes:
         total *= len(ax)
@@ -60,11 +62,14 @@ def _grid(shape, rng, cap, horizon, opts):
         kw = {key: [None] * n for key in
               ("crit", "forever", "sdur", "cdur", "scdur", "dur", "win", "tmo", "stmo")}
         pure = False
+        ucancel = -1
         for (name, i), val in zip(names, choice):
             if name == "jf":
                 kw["crit"][i], kw["forever"][i] = val
             elif name == "pure":
                 pure = val
+            elif name == "ucancel":
+                ucancel = val
             else:
                 kw[name][i] = val
         for i in range(n):
@@ -74,7 +79,7 @@ def _grid(shape, rng, cap, horizon, opts):
                 if kw[key][i] is None:
                     kw[key][i] = dflt
         out = ["any" if kind[i] == "job" else "ok" for i in range(n)]
-        return mkcfg(kind, parent, req, out=out, pure=pure, horizon=horizon, **kw)
+        return mkcfg(kind, parent, req, out=out, pure=pure, horizon=horizon, ucancel=ucancel, **kw)
 
     if total <= cap:
         for choice in itertools.product(*axes):
@@ -133,7 +138,7 @@ def family(name, tier, seed):
                  stmo=[0, 1, -1],
                  jobflags=[(False, False), (True, False), (False, True)],
                  schedflags=[(False, False), (True, False), (False, True), (True, True)],
-                 pure=[False, True]))
+                 pure=[False, True], ucancel=[-1, -1, 1, 2]))
         desc = "6 nested shapes (depth <= 3) x flags x windows x timeouts x handler/clean-up durations"
     elif name == "shutdown":
         shapes = [tree(t) for t in [
@@ -145,7 +150,7 @@ def family(name, tier, seed):
             dict(win=[0], tmo=[-1, 1], cdur=[0, 1], sdur=[0, 1, 2, -1], scdur=[0, 1],
                  stmo=[0, 1, 2, -1],
                  jobflags=[(False, False), (True, False)],
-                 schedflags=[(False, False), (True, False), (False, True)]))
+                 schedflags=[(False, False), (True, False), (False, True)], ucancel=[-1, -1, -1, 1]))
         desc = "3 nested shapes x every handler duration against every shutdown_timeout in the tree"
     elif name == "never":
         # never-ending jobs (dur = -1) under timeouts / as forever jobs
